@@ -91,6 +91,9 @@ def die_points(hits, rng, cap):
     return pts
 
 
+HDR_ONLY = -1000       # torn variant: the newest log file ends right behind a record header
+
+
 def record_offsets(path):
     """start offsets of the physical records of a log file (header: crc 4, length 2 little-endian, type 1)"""
     data = open(path, 'rb').read()
@@ -144,7 +147,15 @@ def run_point(ctx, prog, cls, point, tag, second=None, torn=0):
             if before is not None and files:
                 floor = before[1] if (len(allf) == before[0] and allf[-1] == files[-1]) else os.path.getsize(os.path.join(wd, files[-1]))
             info['in_flight_bytes'] = os.path.getsize(os.path.join(wd, files[-1])) - floor if files else 0
-            if files and torn < 0:
+            if files and torn == HDR_ONLY:
+                # the write(2) ended right behind the 7-byte header of the last physical record: nothing of its payload is there
+                fp = os.path.join(wd, files[-1])
+                offs = record_offsets(fp)
+                if offs and offs[-1] + 7 >= floor and offs[-1] + 7 < os.path.getsize(fp):
+                    os.truncate(fp, offs[-1] + 7)
+                    info['torn_applied'] = True
+                    ev[-1]['torn'] = True
+            elif files and torn < 0:
                 # the write(2) ended exactly on a record boundary: the last -torn physical records are missing (a fragmented
                 # entry or a batch is then cut between two of its records)
                 fp = os.path.join(wd, files[-1])
@@ -247,6 +258,7 @@ def explain(run):
     last_obs = [e for e in ev if e['e'] == 'obs']
     errs = [e for e in ev if e['e'] in ('openerror', 'childerror', 'error')]
     s = f"{info['class']} die at {info.get('die')}" + (f" with the last {info['torn']} bytes of the newest log file missing" if info.get('torn', 0) > 0 else
+                                                      ' with the newest log file ending right behind the header of its last record' if info.get('torn', 0) == HDR_ONLY else
                                                       f" with the last {-info['torn']} physical records of the newest log file missing" if info.get('torn', 0) < 0 else '')
     if errs:
         return s + ': ' + errs[0]['e'] + ' ' + errs[0].get('msg', '')[:200]
@@ -274,7 +286,7 @@ def enumerate_crashes(ctx, prop, progs, classes, cap, second_crash=False, cfg='T
             # synced - the flush in Sync (the operation is acknowledged only after it), and the flush in Close unless every
             # append was already synced (SyncImmediate leaves nothing in the buffer for Close to write)
             if pt[0] == 'wal.sync.flushed' or (pt[0] == 'wal.close.flushed' and cls[2].get('sync_mode', 2) != 2):
-                for t in (1, 7, 20):
+                for t in (1, 7, 20, HDR_ONLY):
                     jobs.append((pi, prog, cls, pt, None, t))
             # with an unsynced log everything Close still has to write out is unacknowledged-as-durable: the write may end
             # on any record boundary as well
